@@ -502,7 +502,7 @@ Section NoRaise.
 
     (* on_replicate_answer at [me]: rq = pre ++ [me; sd] *)
     Lemma on_answer_nr s budget spent rq paths visited fp count hosts evs pre sd :
-      (zlookup c (s_inprog s0) = None -> X) ->
+      (zlookup c (s_inprog s0) = None -> owns C me c = true -> X) ->
       Mid2 s evs -> TK c rq paths rq -> rq = pre ++ [me; sd] ->
       spent = pcost c (pre ++ [me]) -> 0 <= budget ->
       Post2 (on_answer C me s budget spent rq paths visited c fp count hosts evs).
@@ -529,6 +529,8 @@ Section NoRaise.
       { intros H. apply Z.leb_le in H. rewrite Erq, app_length in H. rewrite app_length. simpl in *. lia. }
       assert (Hshort : (3 <=? Z.of_nat (List.length rq)) = false -> pre = []).
       { intros H. apply Z.leb_gt in H. rewrite Erq, app_length in H. simpl in H. destruct pre; [reflexivity|simpl in H; lia]. }
+      assert (HX' : (3 <=? Z.of_nat (List.length rq)) = false -> zlookup c (s_inprog s0) = None -> X).
+      { intros H Z0. apply HX; auto. rewrite (Hshort H) in Erq. rewrite Erq in OW. exact OW. }
       destruct (count =? 0).
       - destruct (3 <=? Z.of_nat (List.length rq)) eqn:Elong.
         + apply send_answer_nr; auto.
@@ -632,7 +634,8 @@ Section NoRaise.
     mok2 n m ->
     let '(s', outs, evs) := ucs_recv C n s src m in
     (forall d m', In (d, m') outs -> mok2 d m') /\
-    (forall x k, In (EvRaise x k) evs -> exists t, m = MAnswer t /\ zlookup (t_comp t) (s_inprog s) = None).
+    (forall x k, In (EvRaise x k) evs ->
+       exists t, m = MAnswer t /\ zlookup (t_comp t) (s_inprog s) = None /\ owns C n (t_comp t) = true).
   Proof.
     intros MO. unfold ucs_recv. destruct (is_agent C n) eqn:Ea; simpl.
     2:{ split; [intros d m' []|intros x k []]. }
@@ -648,12 +651,13 @@ Section NoRaise.
       destruct R as [N O]. split; auto. intros x k' I. destruct (N x k' I).
     - destruct MO as (T & (pre & sd & E) & Hsp & Hb).
       set (s1 := set_pending s _).
-      assert (M : Mid2 (zlookup (t_comp t) (s_inprog s) = None) s1 s1 [])
+      assert (M : Mid2 (zlookup (t_comp t) (s_inprog s) = None /\ owns C n (t_comp t) = true) s1 s1 [])
         by (split; [reflexivity|split; [reflexivity|intros ? ? []]]).
       assert (Hsp' : t_spent t = pcost (t_comp t) (pre ++ [n])).
       { rewrite Hsp, E. change [n; sd] with ([n] ++ [sd]). rewrite app_assoc, removelast_last. reflexivity. }
-      pose proof (on_answer_nr n Ea (zlookup (t_comp t) (s_inprog s) = None) s1 (t_comp t) s1 (t_budget t) (t_spent t) (t_path t)
-                    (t_paths t) (t_visited t) (t_fp t) (t_count t) (t_hosts t) [] pre sd (fun H => H) M T E Hsp' Hb) as R.
+      pose proof (on_answer_nr n Ea (zlookup (t_comp t) (s_inprog s) = None /\ owns C n (t_comp t) = true) s1 (t_comp t) s1
+                    (t_budget t) (t_spent t) (t_path t)
+                    (t_paths t) (t_visited t) (t_fp t) (t_count t) (t_hosts t) [] pre sd (fun H1 H2 => conj H1 H2) M T E Hsp' Hb) as R.
       destruct (on_answer _ _ _ _ _ _ _ _ _ _ _ _ _) as [[[s' o] e] b]. simpl.
       destruct R as [N O]. split; auto. intros x k' I. exists t. split; auto. exact (N x k' I).
   Qed.
